@@ -321,25 +321,26 @@ for c in ("Add", "Maximum"):
 _QU = "qkeras/qtools/qtools_util.py::get_operation_count"
 _ES = "qkeras/estimate.py::extract_model_operations"
 _QE = "qkeras/qtools/qenergy/qenergy.py::energy_estimate"
-TRIAGE[("C19", "R1", _QU, "count:AveragePooling2D")] = {
+TRIAGE[("C19", "R1", _QU, "count:AveragePooling2D:reported Co*ph*pw")] = {
     "what_fails": "the pooling arm multiplies the pool area by the output "
                   "channels only; the output spatial positions are missing",
     "replayed": "get_operation_count(AveragePooling2D((2,2)), (None,8,8,3)) "
                 "-> 12, the layer performs 4*4*3*4 = 192 window additions"}
-TRIAGE[("C19", "R1", _QU, "count:QAveragePooling2D")] = {
+TRIAGE[("C19", "R1", _QU, "count:QAveragePooling2D:reported 0")] = {
     "what_fails": "QAveragePooling2D is not in the pooling class list of "
                   "get_operation_count, so its count defaults to 0",
     "replayed": "get_operation_count(QAveragePooling2D((2,2)), (None,8,8,3))"
                 " -> 0 (prints 'operation count ... is defaulted to 0')"}
-TRIAGE[("C19", "R1", _QU, "count:QDepthwiseConv2DBatchnorm")] = {
+TRIAGE[("C19", "R1", _QU, "count:QDepthwiseConv2DBatchnorm:reported 0")] = {
     "what_fails": "QDepthwiseConv2DBatchnorm is in none of the class lists of "
                   "get_operation_count (the depthwise list has only "
                   "QDepthwiseConv2D/DepthwiseConv2D), so the folded layer's "
                   "count defaults to 0",
     "replayed": "argued from the class lists in get_operation_count (the "
                 "folded layer cannot be built under the pinned Keras 3)"}
-for c in ("QSeparableConv1D", "QSeparableConv2D"):
-  TRIAGE[("C19", "R1", _ES, "count:" + c)] = {
+for c, _got in (("QSeparableConv1D", "Co*To + Ci*To*k"),
+                ("QSeparableConv2D", "Co*Ho*Wo + Ci*Ho*Wo*kh*kw")):
+  TRIAGE[("C19", "R1", _ES, "count:%s:reported %s" % (c, _got))] = {
       "what_fails": "the pointwise term of the separable convolution is "
                     "out_spatial*C_out; a 1x1 convolution performs "
                     "out_spatial*C_out*C_in multiply-accumulates",
@@ -388,28 +389,41 @@ _C20_REPLAY = ("the method body of _get_quantizer, extracted from the real "
                "'L_pointwise_kernel' are offered ['kernel_2','kernel_4']; "
                "'kernel_L_bias' is offered the kernel table; "
                "'bias_L_activation' the bias table")
-for tag in ("pointwise_kernel", "recurrent_kernel"):
-  TRIAGE[("C20", "R2", _GQ, "role-limit:" + tag)] = {
-      "what_fails": "the test '\"kernel\" in head' precedes and subsumes "
-                    "'\"%s\" in head': the %s quantizer is drawn from the "
-                    "kernel table with the kernel limit (index 0) instead of "
-                    "its own table and limit index 2" % (tag, tag),
-      "replayed": _C20_REPLAY}
-for tag in ("activation@layer-name-contains-kernel",
-            "bias@layer-name-contains-kernel",
-            "pointwise_kernel@layer-name-contains-kernel",
-            "recurrent_activation@layer-name-contains-kernel",
-            "recurrent_kernel@layer-name-contains-kernel",
-            "activation@layer-name-contains-bias",
-            "pointwise_kernel@layer-name-contains-bias",
-            "recurrent_activation@layer-name-contains-bias",
-            "recurrent_kernel@layer-name-contains-bias"):
-  TRIAGE[("C20", "R2", _GQ, "role-limit:" + tag)] = {
-      "what_fails": "the tensor role is recognised by substring tests on "
-                    "layer.name + '_' + role, so a layer whose own name "
-                    "contains 'kernel' or 'bias' gets every role resolved to "
-                    "that table and limit index",
-      "replayed": _C20_REPLAY}
+# keys carry the class and what the tuner is offered instead, so that a
+# different wrong table / limit entry for the same role is a new finding
+TRIAGE[("C20", "R2", _GQ, "role-limit:LSTM:recurrent_kernel:gets kernel "
+        "table filtered by limit[0]")] = {
+    "what_fails": "the test '\"kernel\" in head' precedes and subsumes "
+                  "'\"recurrent_kernel\" in head': the recurrent kernel is "
+                  "drawn from the kernel table with the kernel limit (index "
+                  "0) instead of its own table and the recurrent entry "
+                  "(index 2) of the 4-entry recurrent limit list",
+    "replayed": _C20_REPLAY}
+TRIAGE[("C20", "R2", _GQ, "role-limit:SeparableConv2D:pointwise_kernel:gets "
+        "kernel table filtered by limit[0]")] = {
+    "what_fails": "the same shadowed test: the pointwise kernel is drawn "
+                  "from the kernel table instead of the pointwise_kernel "
+                  "table (the limit entry, index 0 = weights of the 3-entry "
+                  "list, is the documented one)",
+    "replayed": _C20_REPLAY}
+for _cls, _roles in (("LSTM", ("activation", "bias", "recurrent_activation",
+                               "recurrent_kernel")),
+                     ("SeparableConv2D", ("activation", "bias",
+                                          "pointwise_kernel"))):
+  for _r in _roles:
+    for _n, _got in (("kernel", "kernel table filtered by limit[0]"),
+                     ("bias", "bias table filtered by limit[1]")):
+      if _r == _n:
+        continue
+      if _n == "bias" and "kernel" in _r:
+        _got = "kernel table filtered by limit[0]"
+      TRIAGE[("C20", "R2", _GQ, "role-limit:%s:%s@layer-name-contains-%s:"
+              "gets %s" % (_cls, _r, _n, _got))] = {
+          "what_fails": "the tensor role is recognised by substring tests "
+                        "on layer.name + '_' + role, so a layer whose own "
+                        "name contains 'kernel' or 'bias' gets every role "
+                        "resolved to that table and limit index",
+          "replayed": _C20_REPLAY}
 for cls, key in (("Dense", "activation"), ("Conv2D", "activation"),
                  ("SeparableConv2D", "activation"),
                  ("SeparableConv2D", "depthwise_quantizer"),
@@ -719,6 +733,32 @@ for _u in ("quantized_po2", "quantized_relu_po2"):
                   "(2000 x 0.3) -> all 0.25; with log2_rounding='rnd' "
                   "{0.25, 0.5}, mean 0.30 (same code path in "
                   "quantized_relu_po2)"}
+for _c in ("DepthwiseConv2D", "QDepthwiseConv2D"):
+  TRIAGE[("C19", "R1", "qkeras/qtools/qtools_util.py::get_operation_count",
+          "count-on-geometry:" + _c)] = {
+      "status": "fixed", "commit": "61de6e5",
+      "what_fails": "the depthwise operation count (qtools "
+                    "get_operation_count and estimate.extract_model_"
+                    "operations) multiplied by the input channels instead "
+                    "of the output channels: with depth_multiplier > 1 the "
+                    "count was too small by that factor",
+      "replayed": "real code before the fix: DepthwiseConv2D((3,2), "
+                  "depth_multiplier=2, padding='same') on 9x8x2 (output "
+                  "9x8x4): get_operation_count -> 864, the layer performs "
+                  "1728 multiply-accumulates"}
+for _u, _c in (("quantized_po2", "max()-does-not-enclose"),
+               ("quantized_po2", "min()-does-not-enclose"),
+               ("quantized_relu_po2", "max()-does-not-enclose")):
+  TRIAGE[("C03", "R5", Q + _u + ".min/max", _c)] = {
+      "what_fails": "with a max_value that is not a power of two the "
+                    "exponent cap is round(log2(max_value)), so the "
+                    "quantizer emits 2**ceil(log2(max_value)) (4 for "
+                    "max_value=3) while min()/max() report +-max_value; "
+                    "recorded, not repaired: flooring the cap changes the "
+                    "values every such quantizer produces in training",
+      "replayed": "real code: quantized_po2(4,max_value=3)([3.5,-3.5,2.9]) "
+                  "-> [4,-4,4], max() -> 3, min() -> -3; "
+                  "quantized_relu_po2(4,max_value=3)([3.5]) -> 4, max() -> 3"}
 _ADD = "qkeras/qtools/quantized_operators/multiplier_impl.py::Adder"
 for _k in (("max", "both-capped", "mixed-sign"), ("max", "no-cap", "mixed-sign"),
            ("max", "one-sided-cap", "mixed-sign"),
